@@ -341,27 +341,37 @@ pub fn check_read7(data: &[u8], scratch_len: usize) -> Result<ReadStats, String>
 /// The two wire representations of one packet (payload Huffman-compressed or not) must read as the
 /// same value under the same token hint: decompression happens before anything else is interpreted.
 /// (0.7 control packets are left out: the token-request length rule looks at the datagram length.)
-pub fn compression_invariance(data: &[u8], hint: u8, is7: bool) -> Result<bool, String> {
+/// The other wire representation of a connection-oriented datagram: payload Huffman-compressed if it was
+/// not, decompressed if it was. None: connectionless, too short/long, a 0.7 control packet, or the result
+/// would not fit a datagram.
+pub fn recode(data: &[u8], is7: bool) -> Option<Vec<u8>> {
     let hdr = if is7 { 7 } else { 3 };
     let (cflag, connless, control) = if is7 { (0x10u8, 0x20u8, 0x04u8) } else { (0x80u8, 0x20u8, 0x10u8) };
     if data.len() < hdr || data.len() > 1400 || data[0] & connless != 0 || (is7 && data[0] & control != 0) {
-        return Ok(false);
+        return None;
     }
     let mut alt = data[..hdr].to_vec();
     alt[0] ^= cflag;
     if data[0] & cflag != 0 {
         let mut out: Vec<u8> = Vec::with_capacity(2048);
         if HUFFMAN.decompress(&data[hdr..], &mut out).is_err() || out.len() > 1400 - hdr {
-            return Ok(false);
+            return None;
         }
         alt.extend_from_slice(&out);
     } else {
         let mut out: Vec<u8> = Vec::with_capacity((data.len() - hdr) * 3 + 16);
         if HUFFMAN.compress(&data[hdr..], &mut out).is_err() || out.len() + hdr > 1400 {
-            return Ok(false);
+            return None;
         }
         alt.extend_from_slice(&out);
     }
+    Some(alt)
+}
+
+pub fn compression_invariance(data: &[u8], hint: u8, is7: bool) -> Result<bool, String> {
+    let Some(alt) = recode(data, is7) else {
+        return Ok(false);
+    };
     let mut s1 = [0u8; 2048];
     let mut s2 = [0u8; 2048];
     let (a, b) = if is7 {
